@@ -1008,11 +1008,15 @@ fn run_inner(sc: &J) -> Result<Option<String>, String> {
                 "{\"type\":\"array\",\"items\":\"boolean\"}", "{\"type\":\"record\",\"name\":\"r\",\"fields\":[{\"name\":\"a\",\"type\":\"int\"},{\"name\":\"b\",\"type\":[\"null\",\"string\"]}]}",
                 "{\"type\":\"bytes\",\"logicalType\":\"uuid\"}", "{\"type\":\"fixed\",\"name\":\"u16\",\"size\":16,\"logicalType\":\"uuid\"}"];
             let mut x = sc["seed"].as_u64().unwrap_or(0).wrapping_add(0x9E3779B97F4A7C15);
-            for st in schemas {
+            // `only`: indices into the schema list (the thorough tier runs max_len 3 on a subset)
+            let only: Option<Vec<usize>> = sc["only"].as_array().map(|a| a.iter().filter_map(|v| v.as_u64().map(|n| n as usize)).collect());
+            for (si, st) in schemas.into_iter().enumerate() {
+                if let Some(o) = &only { if !o.contains(&si) { continue; } }
                 let schema = Schema::parse_str(st).map_err(|e| format!("{st}: {e}"))?;
                 let mut inputs: Vec<Vec<u8>> = vec![vec![]];
                 for a in 0..=255u8 { inputs.push(vec![a]); }
                 if max_len >= 2 { for a in 0..=255u8 { for b in 0..=255u8 { inputs.push(vec![a, b]); } } }
+                if max_len >= 3 { for a in 0..=255u8 { for b in 0..=255u8 { for c in 0..=255u8 { inputs.push(vec![a, b, c]); } } } }
                 for _ in 0..3000 { x = x.wrapping_mul(6364136223846793005).wrapping_add(1442695040888963407); let l = 3 + (x >> 60) as usize; inputs.push((0..l).map(|i| (x >> (8 * (i % 8))) as u8 ^ (i as u8).wrapping_mul(37)).collect()); }
                 let dr = apache_avro::reader::datum::GenericDatumReader::builder(&schema).build().map_err(|e| e.to_string())?;
                 for inp in inputs {
@@ -1164,6 +1168,51 @@ fn run_inner(sc: &J) -> Result<Option<String>, String> {
                 return Ok(Some(format!("hand-built file with user keys avrotools.version and zeta: user_metadata() = {:?}", um.keys().collect::<Vec<_>>())));
             }
             match rd.collect::<Result<Vec<Value>, _>>() { Ok(v) if v == vec![Value::Long(5)] => Ok(None), other => Ok(Some(format!("hand-built file: values read as {other:?}"))) }
+        }
+        // C03/C04: files written by the library, read by an INDEPENDENT parser of the container layout (refimpl::parse_container):
+        // header = magic, metadata with avro.schema (the writer schema) and avro.codec, marker; every block = count, size of the
+        // stored payload, payload, the same marker; the items of all blocks, in order, are exactly the appended values; no empty
+        // block; histories of append / flush with every block size and the null and deflate codecs (deflate inflated with miniz)
+        "container_independent_reader" => {
+            let cases: Vec<(&str, Vec<Value>)> = vec![
+                ("\"long\"", (0..40).map(|i| Value::Long(i * 1000 - 7)).collect()),
+                ("\"string\"", (0..25).map(|i| Value::String("s".repeat(i * 3))).collect()),
+                ("\"null\"", vec![Value::Null; 9]),
+                ("{\"type\":\"record\",\"name\":\"r\",\"fields\":[{\"name\":\"a\",\"type\":\"long\"},{\"name\":\"b\",\"type\":\"string\"}]}", (0..12).map(|i| Value::Record(vec![("a".into(), Value::Long(i)), ("b".into(), Value::String(format!("v{i}")))])).collect()),
+            ];
+            for (st, vals) in cases {
+                let schema = Schema::parse_str(st).map_err(|e| e.to_string())?;
+                for codec_name in ["null", "deflate"] {
+                    for bs in [0usize, 1, 50, 16000] {
+                        for flush_every in [0usize, 1, 7] {
+                            let mut w = apache_avro::Writer::builder().schema(&schema).writer(Vec::new()).codec(parse_codec(codec_name)).block_size(bs).build().map_err(|e| e.to_string())?;
+                            w.add_user_metadata("who".to_string(), b"me").map_err(|e| e.to_string())?;
+                            for (i, v) in vals.iter().enumerate() { w.append_value_ref(v).map_err(|e| e.to_string())?; if flush_every > 0 && (i + 1) % flush_every == 0 { w.flush().map_err(|e| e.to_string())?; } }
+                            let file = w.into_inner().map_err(|e| e.to_string())?;
+                            let what = format!("schema {st} codec {codec_name} block_size {bs} flush every {flush_every}");
+                            let pc = match crate::refimpl::parse_container(&file) { Ok(p) => p, Err(e) => return Ok(Some(format!("{what}: the file is not a spec-conforming container: {e}"))) };
+                            let get = |k: &str| pc.meta.iter().find(|(n, _)| n == k).map(|(_, v)| v.clone());
+                            match get("avro.schema").and_then(|j| String::from_utf8(j).ok()).and_then(|j| Schema::parse_str(&j).ok()) {
+                                Some(sw) if sw.canonical_form() == schema.canonical_form() => {}
+                                other => return Ok(Some(format!("{what}: avro.schema in the header is {:?}", other.map(|s| s.canonical_form())))),
+                            }
+                            let codec_meta = get("avro.codec").map(|v| String::from_utf8_lossy(&v).to_string()).unwrap_or("null".into());
+                            if codec_meta != codec_name { return Ok(Some(format!("{what}: avro.codec in the header is {codec_meta:?}"))); }
+                            if get("who") != Some(b"me".to_vec()) { return Ok(Some(format!("{what}: user metadata lost"))); }
+                            let mut got: Vec<Value> = Vec::new();
+                            for (bi, (count, payload)) in pc.blocks.iter().enumerate() {
+                                if *count == 0 { return Ok(Some(format!("{what}: block {bi} is empty (count 0)"))); }
+                                let raw = if codec_name == "deflate" { match miniz_oxide::inflate::decompress_to_vec(payload) { Ok(r) => r, Err(e) => return Ok(Some(format!("{what}: block {bi} payload is not a raw deflate stream: {e:?}"))) } } else { payload.clone() };
+                                let mut rd = &raw[..];
+                                for _ in 0..*count { match apache_avro::from_avro_datum(&schema, &mut rd, None) { Ok(v) => got.push(v), Err(e) => return Ok(Some(format!("{what}: block {bi} says {count} objects but its payload does not hold them: {e}"))) } }
+                                if !rd.is_empty() { return Ok(Some(format!("{what}: block {bi} has {} byte(s) after its {count} objects", rd.len()))); }
+                            }
+                            if got != vals { return Ok(Some(format!("{what}: appended {} values, an independent reader finds {} (first difference at {:?})", vals.len(), got.len(), got.iter().zip(vals.iter()).position(|(a, b)| a != b)))); }
+                        }
+                    }
+                }
+            }
+            Ok(None)
         }
         // C15/C04: every codec x files whose blocks shrink and grow (a later block's compressed bytes shorter than the previous
         // block's decompressed bytes, and the reverse) x compressible and incompressible payloads: what was written is read back
